@@ -403,8 +403,11 @@ macro_rules! impl_bytes_mut_utils {
       // align relative to the accessible part of the buffer (`ptr_offset`), which is what `as_mut_ptr` is based on
       let align_offset = crate::align_offset::<T>(self.allocated.ptr_offset + self.len as u32);
 
-      if align_offset > self.allocated.ptr_offset + self.allocated.ptr_size {
-        return Err(InsufficientBuffer::with_information((align_offset as u64 - self.len as u64 - self.allocated.ptr_offset as u64), (self.allocated.ptr_size as u64 - self.len as u64)));
+      // the padding plus an aligned `T` must fit in what is left of the buffer
+      let required = (align_offset as u64 - self.len as u64 - self.allocated.ptr_offset as u64) + mem::size_of::<T>() as u64;
+      let remaining = self.allocated.ptr_size as u64 - self.len as u64;
+      if required > remaining {
+        return Err(InsufficientBuffer::with_information(required, remaining));
       }
 
       self.len = (align_offset - self.allocated.ptr_offset) as usize;
